@@ -435,11 +435,17 @@ func (u *Unit) loopInvariants(st *State, fr *Frame, li *loopInfo, class string) 
 	ct := u.contractFor(fr.Fn)
 	for _, i := range u.loopClauses(fr, li) {
 		cl := ct.Clauses[i]
+		if u.refute && cl.Aux {
+			continue
+		}
 		env := u.invEnv(st, fr)
 		env.key = fmt.Sprintf("%s.inv%d", u.Name, i)
 		g, err := env.EvalBool(cl.Expr)
 		if err != nil {
-			u.specError(cl, err)
+			if !u.refute {
+				u.specError(cl, err)
+				u.loopBroken(li.label)
+			}
 			continue
 		}
 		lbl := cl.Name
@@ -448,6 +454,13 @@ func (u *Unit) loopInvariants(st *State, fr *Frame, li *loopInfo, class string) 
 		}
 		u.Prove(st, u.obligName(class, li.label+":"+lbl), class, u.tagsOr(cl.Tags), li.header.Instrs[0].Pos(), "loop "+li.label+" invariant "+cl.Text, g, nil)
 	}
+}
+
+func (u *Unit) loopBroken(label string) {
+	if u.brokenLoops == nil {
+		u.brokenLoops = map[string]bool{}
+	}
+	u.brokenLoops[label] = true
 }
 
 func (u *Unit) assumeLoopInvariants(st *State, fr *Frame, li *loopInfo) {
